@@ -2,6 +2,7 @@ package pass
 
 import (
 	"errors"
+	"fmt"
 
 	"github.com/mmcloughlin/avo/ir"
 	"github.com/mmcloughlin/avo/operand"
@@ -10,6 +11,7 @@ import (
 // Verify pass validates an avo file.
 var Verify = Concat(
 	InstructionPass(VerifyMemOperands),
+	FunctionPass(VerifyLabels),
 )
 
 // VerifyMemOperands checks the instruction's memory operands.
@@ -27,6 +29,21 @@ func VerifyMemOperands(i *ir.Instruction) error {
 		if m.Index != nil && m.Scale == 0 {
 			return errors.New("bad memory operand: index register with scale 0")
 		}
+	}
+	return nil
+}
+
+// VerifyLabels checks that no label is defined twice in the function. This has
+// to happen before unreferenced labels are pruned, otherwise a duplicate label
+// that no branch refers to (or only a jump that is itself pruned) would go
+// unnoticed.
+func VerifyLabels(fn *ir.Function) error {
+	seen := map[ir.Label]bool{}
+	for _, lbl := range fn.Labels() {
+		if seen[lbl] {
+			return fmt.Errorf("duplicate label \"%s\"", lbl)
+		}
+		seen[lbl] = true
 	}
 	return nil
 }
